@@ -272,11 +272,18 @@ def check_typedlist_pack(ctx, rule: str) -> None:
             collected.append((v, r))
     ctx.floor(rule, "values collected by typedlist._pack", len(collected), 1)
 
+    from ..core import expand_aliases, single_assign_aliases
+    flags = {k: v for k, v in single_assign_aliases(pk).items() if isinstance(v, (ast.Compare, ast.BoolOp, ast.UnaryOp))}
+
+    def premises(at_node, extra):
+        # a boolean local assigned once from a condition (`keep = self.__type__ == record`) stands for that condition
+        return [(expand_aliases(e, flags), pol) for e, pol in logic.facts_as_premises(cfg.facts_at(at_node.id)) + extra]
+
     def element_typed(x, at_node, extra):
         """Is expression x a value of the element type at that point?"""
         if isinstance(x, ast.Call) and norm(x.func) == "self.__type__":
             return True
-        prem = logic.facts_as_premises(cfg.facts_at(at_node.id)) + extra
+        prem = premises(at_node, extra)
         if isinstance(x, ast.Name):
             if logic.implies(prem, logic.parse(f"isinstance({x.id}, self.__type__)")):
                 return True
@@ -308,7 +315,7 @@ def check_typedlist_pack(ctx, rule: str) -> None:
                         return res
                 return True
         # the element itself (or the list itself): only for lists of records
-        prem = logic.facts_as_premises(cfg.facts_at(at_node.id)) + extra
+        prem = premises(at_node, extra)
         if logic.implies(prem, logic.parse("self.__type__ == record")):
             return True
         return f"`{norm(e)[:60]}` is written as it is although `self.__type__ == record` does not hold there"
